@@ -36,6 +36,9 @@ def parse(text):
             cells.append(dict(name=f[1], m=f[2], t=f[3] or "TSY", a=f[4], send=f[5] == "1", sync=f[6] == "1", unpin=f[7] == "1"))
         elif f[0] == "pair" and len(f) == 8:
             pairs.append(dict(name=f[1], m=f[2], t=f[3] or "TSY", a=f[4], res_send=f[5] == "1", recv_sync=f[6] == "1", recv_send=f[7] == "1"))
+        elif f[0] == "impl" and len(f) == 5:
+            # trait implemented or not: kept in the pair list (kind="impl")
+            pairs.append(dict(kind="impl", name=f[1], m=f[2], t="TSY", a="", trait=f[3], has=f[4] == "1"))
     return cells, pairs
 
 
@@ -124,6 +127,15 @@ def evaluate(cells, pairs):
         verdict = p["m"] in ("M--", "MSY", "MS-")
         verdict_cells += 1 if verdict else 0
         applied += 1
+        if p.get("kind") == "impl":
+            # documented capabilities: every service is a LocalTimer, the thread-safe one a Timer
+            # (that nobody else hands out Send futures is the pair rule on `Timer::deadline/delay`)
+            want = True if p["trait"] == "LocalTimer" else (True if p["m"] == "MSY" else None)
+            if want is not None and p["has"] != want:
+                sig = "impl|%s|%s|%s" % (p["name"], p["m"], p["trait"])
+                rec = dict(signature=sig, message="%s<%s> %s %s, which the crate documents for this lock class" % (p["name"], p["m"], "does not implement" if want else "implements", p["trait"]))
+                (viol if verdict else info).append(rec)
+            continue
         shared = p["name"].startswith("shared:")
         ok_recv = p["recv_send"] if shared else p["recv_sync"]
         if p["res_send"] and not ok_recv:
